@@ -414,6 +414,13 @@ func Exec(t Target, w *World) *Result {
 			must(os.WriteFile(inPath(f.Path), []byte(f.Content), mode))
 		}
 	}
+	// the inputs were written long ago, whatever is at -o is more recent (as after any earlier build)
+	past := time.Now().Add(-2 * time.Hour)
+	for _, f := range w.Files {
+		if f.Kind == "" {
+			_ = os.Chtimes(inPath(f.Path), past, past)
+		}
+	}
 	if w.CwdGo {
 		must(os.WriteFile("zz_unrelated.go", []byte("package unrelated\n\nimport \"strings\"\n\nvar Cfg = struct{ Field string }{strings.ToUpper(\"x\")}\n"), 0644))
 		must(os.WriteFile("zz_other.go", []byte("package unrelated\n\nfunc Helper() int { return 1 }\n"), 0644))
